@@ -29,7 +29,7 @@ EXPLANATION = (
 RULES = {
     "C20-H1": "heap writers: every write inside [data, data+size); field invariant wr < size, count <= size re-established on every exit",
     "C20-H1c": "scpiheap_get_parts satisfies its contract: part 1 ends inside the heap, part 2 exists iff part 1 ends exactly at the end, else length 0",
-    "C20-H2": "conservation: bytes copied == decrease of count (strndup); bytes cleared == increase of count (free)",
+    "C20-H2": "conservation: bytes copied == decrease of count (strndup), the pieces copied are consecutive pieces of the source; bytes cleared == increase of count (free)",
     "C20-H3": "heap fields are written only by scpiheap_*; scpiheap_* are called only from the error-queue code",
     "C20-H4": "text ownership typestate in the static-heap build; rollback TRUE only for the newest allocations (overflow arm), FALSE at pop/clear",
 }
@@ -82,6 +82,18 @@ def rule_h1_h2(ck, prog):
             if d is not None and d[0] == "heap->data":
                 cur = st.env.get("$copied", Lin.const(0))
                 st.env["$copied"] = cur + ext if ext is not None else an.opaque(st, "$copied", nonneg=True)
+                # the pieces copied are consecutive pieces of the source text, starting at its first byte
+                src = an.pointer(st, C.call_args(n)[1])
+                want = st.env.get("$srcnext", Lin.const(0))
+                key = ("src", n.id)
+                what = "`%s` copies from the source text at the offset where the previous piece ended" % n.src
+                if src is None or ext is None:
+                    site = an.sites.setdefault(key, B.Site(n, "source", what))
+                    site.results.append((False, False, True, "source pointer of the copy not expressible", None, None))
+                else:
+                    for g in (src[1] - want, want - src[1]):
+                        an.oblige_fact(st, n, "source", g, what, key=key)
+                    st.env["$srcnext"] = src[1] + ext
 
         def exit_cons(an, st):
             # only on paths that allocated (returned the head pointer): copied == count@entry - count@exit
@@ -95,8 +107,12 @@ def rule_h1_h2(ck, prog):
                         ghost={"memcpy": ghost_copy, "__builtin_memcpy": ghost_copy},
                         exit_obligations=[("field invariant wr < size, count <= size on exit", exit_inv),
                                           ("bytes copied == decrease of the free-byte counter", exit_cons)])
+        an.symbolic_bases = True
         sites = an.run()
         n = report_sites(ck, "C20-H1", f, an, sites, ("store", "call", "load", "arith"))
+        nsrc = report_sites(ck, "C20-H2", f, an, sites, ("source",))
+        if nsrc < 2:
+            ck.anchor_lost("C20-H2", "scpiheap_strndup: %d copies with a tracked source (expected 2)" % nsrc)
         n2 = 0
         for key, s in sites.items():
             if s.kind == "exit":
@@ -173,7 +189,22 @@ def rule_h1_h2(ck, prog):
                 if l2 is not None:
                     goals.append(le(l2, size))                                    # (C) weak form; C' (len2 < size) is assumed, see text-terminated
             return goals
+        def ghost_scan(an, st, n):
+            # a part's length is measured up to the end of the heap: scanning less cuts the text, scanning more leaves the heap
+            a = C.call_args(n)
+            d = an.pointer(st, a[0])
+            bound = an.value(st, a[1]) if len(a) > 1 else None
+            size = an.cur(st, "heap->size")
+            key = ("scan", n.id)
+            what = "`%s` measures the part up to the last byte of the heap" % n.src
+            if d is None or d[0] != "heap->data" or bound is None:
+                site = an.sites.setdefault(key, B.Site(n, "scan", what))
+                site.results.append((False, False, True, "scanned range not expressible", None, None))
+                return
+            for g in (d[1] + bound - size, size - d[1] - bound):
+                an.oblige_fact(st, n, "scan", g, what, key=key)
         an = B.Analysis(prog, f, caps, contracts, assume=[("heap->size", ">=", 1)], ptr_assume={"s": "heap->data"},
+                        ghost={k_: ghost_scan for k_, v_ in contracts.items() if v_.get("kind") == "strnlen"},
                         exit_obligations=[("contract of scpiheap_get_parts (A, B, C)", exit_parts)])
         # only paths that return TRUE matter: mark via a ReturnStmt hook
         orig = an.do_elem
@@ -202,6 +233,8 @@ def rule_h1_h2(ck, prog):
                 ck.undecided("C20-H1c", st, K.loc(f), "contract not provable: %s" % (r[3] if r else ""), {"facts": r[4] if r else None})
         if not got:
             ck.anchor_lost("C20-H1c", "no TRUE-returning path of scpiheap_get_parts reached")
+        if report_sites(ck, "C20-H1c", f, an, sites, ("scan",)) < 2:
+            ck.anchor_lost("C20-H1c", "length scans of the two parts in scpiheap_get_parts")
     # ---- free ----
     f = prog.fn("scpiheap_free")
     if f is None:
